@@ -154,6 +154,26 @@ def w_trend(w, cfg):
     w.discharge(f"{entry}.tau", assume, V.to_real(tau) == z3.ToReal(S) / Fraction(n * (n - 1), 2), lemmas=lem, concretize=conc)
     w.discharge(f"{entry}.p_value", assume, V.to_real(p) == pspec, lemmas=lem, concretize=conc, sample=True)
     w.discharge(f"{entry}.trend_flag", assume, V.to_z3(trend) == flag, lemmas=lem, concretize=conc)
+    # Sen's slope of the composition: median of the pairwise slopes (declaratively, as in w_parts)
+    ds = [(z3.ToReal(xs[j] - xs[i])) / (j - i) for i in range(n - 1) for j in range(i + 1, n)]
+    N = len(ds)
+    m_ = V.to_real(slope)
+    if N % 2 == 1:
+        below = z3.Sum([z3.If(d < m_, 1, 0) for d in ds])
+        above = z3.Sum([z3.If(d > m_, 1, 0) for d in ds])
+        sclaim = z3.And(z3.Or(*[d == m_ for d in ds]), 2 * below <= N - 1, 2 * above <= N - 1)
+        slem = lem
+    else:
+        a_, b_ = z3.Real("cmed_lo"), z3.Real("cmed_hi")
+
+        def ostat(v, k):
+            lt = z3.Sum([z3.If(d < v, 1, 0) for d in ds])
+            le = z3.Sum([z3.If(d <= v, 1, 0) for d in ds])
+            return z3.And(z3.Or(*[d == v for d in ds]), lt < k, k <= le)
+        slem = lem + [ostat(a_, N // 2), ostat(b_, N // 2 + 1)]
+        sclaim = m_ == (a_ + b_) / 2
+    if entry == "1d":
+        w.discharge(f"{entry}.sens_slope", assume, sclaim, lemmas=slem, concretize=conc)
     for ob in it.obligations:
         if ob.kind in ("zero-division", "sqrt-domain"):
             # variance is positive for n >= 2 unless all values are equal (then S = 0 and Z = 0 is returned before dividing)
